@@ -317,6 +317,10 @@ class HeaderPacketReceiver(Elaboratable):
         last_enable = Signal()
         m.d.ss     += last_enable.eq(self.enable)
 
+        # We'll restart our link state whenever we leave U0 (enable falls) or see a USB reset.
+        restart_link = Signal()
+        m.d.comb    += restart_link.eq((last_enable & ~self.enable) | self.usb_reset)
+
         #
         # Header Packet Buffers
         #
@@ -459,8 +463,9 @@ class HeaderPacketReceiver(Elaboratable):
             with m.State("DISPATCH_COMMAND"):
 
                 # (We won't dispatch during a USB reset: the pending work we'd base our choice on
-                #  is exactly what's being discarded below.)
-                with m.If(self.enable & ~self.usb_reset):
+                #  is exactly what's being discarded. We'll also let a link command that was abandoned
+                #  by a link restart drain first, so its completion isn't mistaken for our next one's.)
+                with m.If(self.enable & ~self.usb_reset & ~lc_generator.source.valid):
                     # NOTE: the order below is important; changing it can easily break things:
                     # - ACKS must come before credits, as we must send an LGOOD before we send our initial credits.
                     # - LBAD must come after ACKs and credit management, as all scheduled ACKs need to be
@@ -490,46 +495,6 @@ class HeaderPacketReceiver(Elaboratable):
                         m.next = "SEND_KEEPALIVE"
 
 
-
-                # Once we've become disabled, we'll want to prepare for our next enable.
-                # This means preparing for our advertisement, by:
-                with m.If((last_enable & ~self.enable) | self.usb_reset):
-                    m.d.ss += [
-                        # -Resetting our pending ACKs to 1, so we perform an sequence number advertisement
-                        #  when we're next enabled.
-                        acks_to_send          .eq(1),
-
-                        # -Moving our next sequence number back to the last one we've received; so we maintain a
-                        #  continuity of sequence numbers without counting the advertising one. (We can't just
-                        #  decrease it: we may still owe LGOODs, which are now replaced by the advertisement.)
-                        #  This doesn't seem to be be strictly necessary per the spec; but seem to make analyzers
-                        #  happier, so we'll go with it.
-                        next_header_to_ack    .eq(expected_sequence_number - 1),
-
-                        # - Clearing all of our buffers.
-                        read_pointer          .eq(0),
-                        write_pointer         .eq(0),
-                        buffers_filled        .eq(0),
-
-                        # - Preparing to re-issue all of our buffer credits.
-                        next_credit_to_issue  .eq(0),
-                        credits_to_issue      .eq(self._buffer_count),
-
-                        # - Clear our pending events.
-                        lrty_pending          .eq(0),
-                        lbad_pending          .eq(0),
-                        keepalive_pending     .eq(0),
-                        ignore_packets        .eq(0)
-                    ]
-
-                    # If this is a USB Reset, also reset our sequences.
-                    with m.If(self.usb_reset):
-                        m.d.ss += [
-                            expected_sequence_number  .eq(0),
-                            next_header_to_ack        .eq(-1)
-                        ]
-
-
             # SEND_ACKS -- a valid header packet has been received, or we're advertising
             # our initial sequence number; send an LGOOD packet.
             with m.State("SEND_ACKS"):
@@ -551,6 +516,10 @@ class HeaderPacketReceiver(Elaboratable):
                     # If this was the last ACK we had to send, move back to our dispatch state.
                     with m.If(acks_to_send == 1):
                         m.next = "DISPATCH_COMMAND"
+
+                # If our link state is being restarted, this command is no longer ours to send.
+                with m.If(restart_link):
+                    m.next = "DISPATCH_COMMAND"
 
 
             # ISSUE_CREDITS -- header packet buffers have been freed; and we now need to notify the
@@ -574,6 +543,10 @@ class HeaderPacketReceiver(Elaboratable):
                     with m.If(credits_to_issue == 1):
                         m.next = "DISPATCH_COMMAND"
 
+                # If our link state is being restarted, this command is no longer ours to send.
+                with m.If(restart_link):
+                    m.next = "DISPATCH_COMMAND"
+
 
             # SEND_LBAD -- we've received a bad header packet; we'll need to let the other side know.
             with m.State("SEND_LBAD"):
@@ -588,6 +561,10 @@ class HeaderPacketReceiver(Elaboratable):
                     m.d.ss += lbad_pending.eq(0)
                     m.next = "DISPATCH_COMMAND"
 
+                # If our link state is being restarted, this command is no longer ours to send.
+                with m.If(restart_link):
+                    m.next = "DISPATCH_COMMAND"
+
 
             # SEND_LRTY -- our transmitter has requested that we send an retry indication to the other side.
             # We'll do our transmitter a favor and do so.
@@ -599,6 +576,10 @@ class HeaderPacketReceiver(Elaboratable):
 
                 with m.If(lc_generator.done):
                     m.d.ss += lrty_pending.eq(0)
+                    m.next = "DISPATCH_COMMAND"
+
+                # If our link state is being restarted, this command is no longer ours to send.
+                with m.If(restart_link):
                     m.next = "DISPATCH_COMMAND"
 
 
@@ -621,6 +602,10 @@ class HeaderPacketReceiver(Elaboratable):
                     m.d.ss += keepalive_pending.eq(0)
                     m.next = "DISPATCH_COMMAND"
 
+                # If our link state is being restarted, this command is no longer ours to send.
+                with m.If(restart_link):
+                    m.next = "DISPATCH_COMMAND"
+
 
             # SEND_LXU -- we're being instructed to reject a requested power-state transfer.
             # We'll send an LXU packet to inform the other side of the rejection.
@@ -633,5 +618,57 @@ class HeaderPacketReceiver(Elaboratable):
                 with m.If(lc_generator.done):
                     m.d.ss += lxu_pending.eq(0)
                     m.next = "DISPATCH_COMMAND"
+
+                # If our link state is being restarted, this command is no longer ours to send.
+                with m.If(restart_link):
+                    m.next = "DISPATCH_COMMAND"
+
+
+        #
+        # Link restart (leaving U0 / USB reset).
+        # This applies no matter which link command we're currently sending.
+        #
+
+        # Once we've become disabled, we'll want to prepare for our next enable.
+        # This means preparing for our advertisement, by:
+        with m.If(restart_link):
+
+            # -Not starting any link command on behalf of the state we're discarding.
+            m.d.comb += lc_generator.generate.eq(0)
+
+            m.d.ss += [
+                # -Resetting our pending ACKs to 1, so we perform an sequence number advertisement
+                #  when we're next enabled.
+                acks_to_send          .eq(1),
+
+                # -Moving our next sequence number back to the last one we've received; so we maintain a
+                #  continuity of sequence numbers without counting the advertising one. (We can't just
+                #  decrease it: we may still owe LGOODs, which are now replaced by the advertisement.)
+                #  This doesn't seem to be be strictly necessary per the spec; but seem to make analyzers
+                #  happier, so we'll go with it.
+                next_header_to_ack    .eq(expected_sequence_number - 1),
+
+                # - Clearing all of our buffers.
+                read_pointer          .eq(0),
+                write_pointer         .eq(0),
+                buffers_filled        .eq(0),
+
+                # - Preparing to re-issue all of our buffer credits.
+                next_credit_to_issue  .eq(0),
+                credits_to_issue      .eq(self._buffer_count),
+
+                # - Clear our pending events.
+                lrty_pending          .eq(0),
+                lbad_pending          .eq(0),
+                keepalive_pending     .eq(0),
+                ignore_packets        .eq(0)
+            ]
+
+            # If this is a USB Reset, also reset our sequences.
+            with m.If(self.usb_reset):
+                m.d.ss += [
+                    expected_sequence_number  .eq(0),
+                    next_header_to_ack        .eq(-1)
+                ]
 
         return m
